@@ -286,7 +286,7 @@ func (sb *Sandbox) materialise(w *World) {
 		if err := os.MkdirAll(filepath.Dir(full), 0o755); err != nil {
 			machinery("mkdir: %v", err)
 		}
-		if err := os.WriteFile(full, w.Files[p].Bytes(), 0o644); err != nil {
+		if err := os.WriteFile(full, sb.expand(w.Files[p].Bytes()), 0o644); err != nil {
 			machinery("write: %v", err)
 		}
 		_ = os.Chtimes(full, old, old)
@@ -305,6 +305,14 @@ func (sb *Sandbox) materialise(w *World) {
 			machinery("symlink: %v", err)
 		}
 	}
+}
+
+// expand substitutes the absolute path of the world directory for <<W>> (files and standard input that name absolute paths).
+func (sb *Sandbox) expand(b []byte) []byte {
+	if bytes.Contains(b, []byte("<<W>>")) {
+		return bytes.ReplaceAll(b, []byte("<<W>>"), []byte(sb.W))
+	}
+	return b
 }
 
 // Restore puts the world back into its initial state.
@@ -465,7 +473,7 @@ func (sb *Sandbox) Run(st Step) Result {
 	}
 	cmd.Env = env
 	if st.Stdin != nil {
-		cmd.Stdin = bytes.NewReader(st.Stdin.Bytes())
+		cmd.Stdin = bytes.NewReader(sb.expand(st.Stdin.Bytes()))
 	}
 	var stdout, stderr bytes.Buffer
 	cmd.Stdout = &stdout
